@@ -37,7 +37,7 @@ from sim.harness import draw_knobs, Discard
 
 ID = "C16"
 LEVEL = "exploration"
-RUNS = {"quick": 3000, "thorough": 60000}
+RUNS = {"quick": 2500, "thorough": 36000}
 WALL_CAP = {"quick": 120, "thorough": 3000}
 RULE = ("one case = 2-5 generated template expressions (<= 12 nodes: arithmetic, comparison, all-operand boolean, "
         "conditional, tuple, attribute and index access over 2-4 machine/player/settings/device variables) "
@@ -1216,7 +1216,7 @@ def execute(ctx, plan):
                 m.events.post("ev_h", _c16=1, **op["kw"])
         elif kind in ("game_start", "add_player", "end_ball", "end_game"):
             # one game transition per instant: overlapping transitions are the game's own business (other properties)
-            if now == game_op_t[0]:
+            if now <= game_op_t[0] + TIME_EPS:
                 return
             if kind == "game_start":
                 if g is not None or not m.modes["attract"].active:
